@@ -18,8 +18,11 @@ import (
 )
 
 type Rec struct {
-	R      *hx.Run
-	Layer  string
+	R     *hx.Run
+	Layer string
+	// Keep, if set, selects the request lines the byte-producing requests depend on (the primitive protocol has separate
+	// write and read state: a `w ser` answer is a function of the `w` lines alone); nil: all lines.
+	Keep   func(op string) bool
 	caseNo []int
 	ops    [][]string
 	impl   [][]string
@@ -33,7 +36,7 @@ func (x *Rec) Start(n int) {
 }
 
 func (x *Rec) Line(op, ans string) {
-	if len(x.ops) == 0 {
+	if len(x.ops) == 0 || (x.Keep != nil && !x.Keep(op)) {
 		return
 	}
 	i := len(x.ops) - 1
